@@ -270,7 +270,29 @@ def run(prog, rep):
         # the outer loop visits every bucket: counter < table->size, ++counter
         rep.ob("C15.3", fn, "full-scan", okl, "each bucket chain is walked until node == NULL; no early exit" if okl else msg, fn.loc[0])
     # (p_list_remove: first occurrence only, nothing followed after the release - decided by the shape analysis, C15.5)
-    rep.floor("C15.3", 3)
+    # lookup_by_value: with a predicate given, the predicate alone decides which keys are listed (it is an acceptance test of the
+    # stored value against the given one - "strictly greater" is a legal predicate and rejects an identical value); the pointer
+    # comparison of the stored value with the argument is evaluated only on paths where no predicate was passed
+    lv = u.fn("p_hash_table_lookup_by_value")
+    lps = lv.param_names()
+    ident = []
+    if len(lps) >= 3:
+        def ls(st, b, i, stmt, ident=ident):
+            for n_ in walk(stmt):
+                if n_["k"] == "bin" and n_["op"] in ("==", "!="):
+                    a_, b_ = strip_casts(n_["l"]), strip_casts(n_["r"])
+                    for x_, y_ in ((a_, b_), (b_, a_)):
+                        if x_ is not None and x_["k"] == "member" and x_["field"] == "value" and y_ is not None and y_["k"] == "ref" and y_["name"] == lps[1]:
+                            if guards.lookup(st, lps[2]) != 0:
+                                ident.append(line(n_))
+            return [guards.transfer(st, stmt)]
+        Flow(lv, [guards.EMPTY], ls, lambda st, b, to, on: guards.edge_assume(st, b, on), max_states=20000).run()
+    calls_f = [c for (b, i, c) in lv.calls() if c.get("callee") is None and c.get("fnptr") is not None and root_var(c["fnptr"]) == (lps[2] if len(lps) >= 3 else None)]
+    okl = len(lps) >= 3 and bool(calls_f) and not ident
+    rep.ob("C15.3", lv, "by-value:predicate", okl, "with a predicate the listing is decided by the predicate alone; values are compared by identity only when none was given" if okl else
+           ("line %d: the stored value is compared with the argument by identity on a path where a predicate was passed: a value identical to the argument is listed although the "
+            "predicate may reject it (a `strictly greater` predicate does)" % ident[0] if ident else "the predicate is never called"), ident[0] if ident else lv.loc[0])
+    rep.floor("C15.3", 4)
 
     # ---- C15.4 -----------------------------------------------------------------------------
     rel = uaf.releasers_for(prog)
@@ -341,6 +363,8 @@ def run(prog, rep):
 RENAME_LOCALS = ['src/phashtable.c', 'src/plist.c']
 
 SELFTEST = [
+    dict(id="lookup-by-value-identity-shortcut", file="src/phashtable.c", expect="C15.3",
+         old="\t\t\tif (func == NULL)\n\t\t\t\tres = (node->value == val);", new="\t\t\tif (func == NULL || node->value == val)\n\t\t\t\tres = (node->value == val);"),
     # ---- C15.5 list operations ----
     dict(id="list-reverse-head-link-kept", file="src/plist.c", expect="C15.5",
          old="\tprev->next = NULL;\n", new=""),
